@@ -4,5 +4,6 @@ import GraphSlam.Props.C03.Invariants
 import GraphSlam.Props.C03.Fill
 import GraphSlam.Props.C03.Assembled
 import GraphSlam.Props.E2E.Step
+import GraphSlam.Props.Tie.GraphPy
 
 /-! C03 — umbrella. -/
